@@ -65,6 +65,10 @@ def setup():
     t = qp.tape.QuantumScript([qp.RX(0.1, 0), qp.CNOT([0, 1])], [qp.expval(qp.Z(0))])
     qp.execute([t, t], dev, diff_method=None, cache=True)
     _ENV["ready"] = True
+    from simkit.core import Streams, derive_seed
+
+    for i in range(150):  # warm lazily imported paths once, before workers are forked
+        run_case(gen_case(Streams(derive_seed("warm", i)), "quick"))
 
 
 # ------------------------------------------------------------------------------------------------
